@@ -28,6 +28,8 @@ func init() {
 			{ID: "R14g", Floor: 1, Doc: "section length reads distinguish clean EOF from truncation the same way for every source type (= R02c)", Run: ruleR02c},
 			{ID: "R14h", Floor: 5, Doc: "seeks over block bodies stay within what the reader has (no skip past the bounded payload) (= R02b)", Run: ruleR02b},
 			{ID: "R14i", Floor: 8, Doc: "a section is read into a buffer sized by its own decoded length (= R01b)", Run: ruleR01b},
+			{ID: "R14j", Floor: 4, Doc: "every byte the block reader consumes goes through the audited adapters, which keep the CARv2 payload bound (= R03o)", Run: ruleR03o},
+			{ID: "R14k", Floor: 1, Doc: "SkipNext decodes the section's CID under the bound Next reads it under — the section length: the LimitReader handed to CidFromReader is limited by exactly the decoded section size, not by an unrelated option", Run: ruleR14k},
 		},
 	})
 }
@@ -392,4 +394,27 @@ func ruleR14d(c *Ctx, r *Report) {
 		}
 	}
 	r.Check(bad == "", key, c.Pos(fn.Pos()), "returns &BlockMetadata{...} allocated per call", bad)
+}
+
+func ruleR14k(c *Ctx, r *Report) {
+	fn, err := c.Func(modV2, "BlockReader", "SkipNext")
+	if err != nil {
+		r.InfraFail("%v", err)
+		return
+	}
+	key := "cid-bound@" + fnKey(fn)
+	sizes := callsToFunc(fn, pkgV1Util, "", "LdReadSize")
+	lims := callsToFunc(fn, "io", "", "LimitReader")
+	if len(sizes) != 1 || len(lims) == 0 {
+		r.Undec(key, c.Pos(fn.Pos()), "LdReadSize / io.LimitReader not found")
+		return
+	}
+	S := extractOf(sizes[0].Value(), 0)
+	bad := ""
+	for _, l := range lims {
+		if canon(l.Common().Args[1]) != S {
+			bad = fmt.Sprintf("the reader the CID is decoded from at %s is limited by something other than the section length: a valid section whose CID is longer than that limit reads with Next and fails with SkipNext", c.Pos(l.Pos()))
+		}
+	}
+	r.Check(bad == "", key, c.Pos(lims[0].Pos()), "LimitReader(r, sectionSize)", bad)
 }
